@@ -42,7 +42,7 @@ func memoControl(c *core.Ctx) string {
 		}
 		fns := core.FixtureFuncs(p)
 		e := core.NewDepEngine(c)
-		want := map[string]string{"cache.Incomplete": "b", "cache.Complete": "", "cache.ViaCallback": "b"}
+		want := map[string]string{"cache.Incomplete": "b", "cache.Complete": "", "cache.ViaCallback": "b", "ByTag": "s.{", "resolver.Concrete": "m.{"}
 		for name, gap := range want {
 			fn := fns[name]
 			if fn == nil {
@@ -50,6 +50,14 @@ func memoControl(c *core.Ctx) string {
 				return
 			}
 			ms := core.FindMemos(fn)
+			// (an outer level that stores a fresh inner map is a memo too, with nothing to report)
+			var withVal []core.Memo
+			for _, m := range ms {
+				if _, fresh := m.Val.(*ssa.MakeMap); !fresh {
+					withVal = append(withVal, m)
+				}
+			}
+			ms = withVal
 			if len(ms) != 1 {
 				memoControlErr = fmt.Sprintf("fixture %s: %d memo patterns detected, want 1", name, len(ms))
 				return
@@ -58,6 +66,9 @@ func memoControl(c *core.Ctx) string {
 			got := ""
 			if len(gaps) > 0 {
 				got = strings.Fields(gaps[0])[0]
+			}
+			if strings.HasSuffix(gap, "{") && strings.HasPrefix(got, gap) {
+				got = gap
 			}
 			if got != gap || len(gaps) > 1 {
 				memoControlErr = fmt.Sprintf("fixture %s: gaps %v, want [%s]", name, gaps, gap)
